@@ -195,6 +195,15 @@ def run_views(res, spec, inst=None, name="inst-name", meta=None):
     if not nan_eq(np.asarray(inst.machines_matrix_array), mm):
         bad("view:machines_matrix_array", observed=np.asarray(inst.machines_matrix_array).tolist(), expected=mm.tolist())
 
+    # second reading, after every other view has been materialised: a view
+    # must not be disturbed by reading another one
+    if not nan_eq(np.asarray(inst.durations_matrix_array), dm):
+        bad("view:durations_matrix_array(second-reading)", observed=np.asarray(inst.durations_matrix_array).tolist(), expected=dm.tolist())
+    if not nan_eq(np.asarray(inst.machines_matrix_array), mm):
+        bad("view:machines_matrix_array(second-reading)", observed=np.asarray(inst.machines_matrix_array).tolist(), expected=mm.tolist())
+    if inst.durations_matrix != [[d for _, d in job] for job in spec] or [[o.operation_id for o in ml] for ml in inst.operations_by_machine] != views["operations_by_machine"][1]:
+        bad("view:lists(second-reading)")
+
     # ---- round trips -----------------------------------------------------
     from job_shop_lib import JobShopInstance
 
